@@ -194,8 +194,16 @@ def _row_id_ok(fi, idx, feats, guards):
                         given = ("cmp", "is not", Ip, ("const", None))
                         has_arr = has_guard(ev.guards, given)
                         no_arr = has_guard(ev.guards, mk_not(given))
+                        def flat(t):
+                            # I.ravel() / I.flatten() / I.reshape(-1): the same identifiers in the same order (read one
+                            # at a time with .item(), a column vector and its flat view give the same numbers)
+                            while t[0] == "call" and t[1][0] == "attr" and not t[3] and (
+                                    (t[1][2] in ("ravel", "flatten") and not t[2])
+                                    or (t[1][2] == "reshape" and t[2] in ((("const", -1),), (("neg", ("const", 1)),)))):
+                                t = t[1][1]
+                            return t
                         if idx[0] == "call" and idx[1][0] == "attr" and idx[1][2] == "item" \
-                                and idx[1][1] == ("idx", Ip, counter):
+                                and idx[1][1][0] == "idx" and idx[1][1][2] == counter and flat(idx[1][1][1]) == Ip:
                             ok = has_arr
                             if not ok:
                                 detail = "the index array is used without testing that it was given"
